@@ -45,7 +45,8 @@ class SchedSession(Session):
             self.first_mut.setdefault(task.id, k.seq)
         elif kind in ("flock", "funlock") and "WRITELOCK" in detail:
             self.lock_events.append((k.seq, k.time(), task.name, kind))
-        if kind == "rename" or kind == "ram.rename_file":
+        # (a BufferedWriter keeps its buffer in a RamStorage index of its own, whose TOC renames are not commits of the index under test)
+        if kind == "rename" or (kind == "ram.rename_file" and self.storage_kind == "ram"):
             dst = detail.split(">")[-1] if ">" in detail else detail.split(",")[-1]
             m = TOC_RE.search(dst)
             if m:
